@@ -9,6 +9,7 @@ import Saltpack.Model.Stream
 import Saltpack.Model.Classify
 import Saltpack.Model.SpecDecode
 import Saltpack.Model.SignReader
+import Saltpack.Model.ArmorWriter
 
 open Saltpack
 
@@ -191,6 +192,17 @@ def handle (toks : List String) : Option String :=
       let (okc, s2) := s1.close
       some s!"ok writes={if tr.isEmpty then "-" else ",".intercalate tr.reverse} close={okc} out={toHex s2.written.flatten} nwrites={s2.written.length}"
     | _, _ => none
+  | ["st.aw", typ, brand, writes] =>
+    -- the armor writer call by call: cumulative output length after the constructor, after every Write, and the final text
+    match typ.toInt?, ofHex brand, hexList writes with
+    | some typ, some brand, some ws =>
+      let s0 := ArmState.init62 typ brand
+      let (s1, tr) := ws.foldl (fun (acc : ArmState × List String) w =>
+          let s' := acc.1.write w
+          (s', s!"{s'.out.length}" :: acc.2)) (s0, [s!"{s0.out.length}"])
+      let s2 := s1.close
+      some s!"ok lens={".".intercalate tr.reverse} out={toHex s2.out}"
+    | _, _, _ => none
   | _ => none
 
 end Driver3
